@@ -1,7 +1,7 @@
 #ifndef NIXSIM_OBSERVE_HPP
 #define NIXSIM_OBSERVE_HPP
 #include "node.hpp"
-namespace nix { class File; class DataArray; class Variant; }
+#include <nix.hpp>
 namespace sim {
 struct ObsOpts {
     bool check_lookups;   // evaluate C03.agree / C03.unique while walking
@@ -12,5 +12,9 @@ struct ObsOpts {
 Node observe(const nix::File &f, const ObsOpts &opt, std::vector<std::string> *viol, uint64_t *getters);
 std::string variant_str(const nix::Variant &v);
 std::string read_array_raw(const nix::DataArray &da, bool &ok);
+// observation of a single entity through a given handle (same fragments as observe(); children of blocks, sources and sections are not walked)
+Node observe_block(const nix::Block &b); Node observe_array(const nix::DataArray &a); Node observe_frame(const nix::DataFrame &f);
+Node observe_tag(const nix::Tag &t); Node observe_mtag(const nix::MultiTag &t); Node observe_group(const nix::Group &g);
+Node observe_source(const nix::Source &s); Node observe_section(const nix::Section &s); Node observe_property(const nix::Property &p);
 }
 #endif
